@@ -124,7 +124,7 @@ Proof.
     + intro u. cbn. upd_cases u t; [apply TInv_pend|]; apply I.
     + intros u e'. cbn. upd_cases u t; cbn; [intro H; inversion H; subst; exact Hpo|apply P].
   - (* FReg *)
-    destruct (memb t (registered s)); split; assumption.
+    destruct (memb t (registered s) || negb (tvalid (th s t))); split; assumption.
   - (* FTry *)
     destruct (pend (th s t)) as [e0|] eqn:Ep; [|split; assumption].
     destruct (negb (memb t (registered s))); [split; assumption|].
